@@ -36,6 +36,15 @@ Definition dispatch (fn : Z) (a : sexp) : sexp :=
     | 5 => e_res e_Z (bst_width (cw_of (d_cw (d_nth a 5))) s)
     | _ => e_res e_nat (bst_num_names s)
     end
+  (* pattern conformance: the hand-written matchers against the live module-level regex objects *)
+  | 13%Z =>
+    let s := d_str (d_nth a 1) in
+    match d_nat (d_nth a 0) with
+    | 0 => e_list e_str (re_split sep_space s)            (* BIBTEX_SPACE_RE.split(s) *)
+    | 1 => e_str (strip_control_sequence s)               (* purify_special_char_re.sub('', s) *)
+    | 2 => e_list e_str (re_split sep_and s)              (* re.compile(' [Aa][Nn][Dd] ').split(s) *)
+    | _ => let r := find_closing_brace s in e_pair e_str e_str r
+    end
   | _ => L []
   end.
 
